@@ -26,7 +26,7 @@ CLAIMED = {
             "(write sequence, factorised columns, names, n_output_features_, both kinds), larger ones are validated "
             "as traces event by event.",
             "Columns are identified by factorising outputs on a row of distinct primes (data independence of the "
-            "kernels); scikit-learn's powers_ is used to cross-check the spec's enumeration."),
+            "kernels); scikit-learn's powers_ is used to cross-check the spec's enumeration. The compiled kernel's call protocol is the mechanism layer; the estimator is what is decided. Two layers (DESIGN 13): a deviation of the recorded mechanism alone is reported as MODEL-DRIFT (exit 0); a VIOLATION needs a clause on results to fail."),
     "C12": ("DESIGN 4/C12",
             "TLA+ specs DigitizeTree (explicit-stack machine of the recursive construction) and TreeBox (tree growth "
             "+ parent walk): TLC model checking + spec->code replay + trace validation of recorded add-node calls and "
@@ -36,7 +36,7 @@ CLAIMED = {
             "sequence; TLC trees realised as real scikit-learn Trees), random bins and fitted trees (depth-first, "
             "best-first, one-node) are validated as traces.",
             "Dyadic edges / integer data so float32 casts and midpoints are exact; numpy.digitize and sklearn apply are "
-            "used to cross-check the spec's own Digitize/Route definitions (a mismatch is a machinery failure)."),
+            "used to cross-check the spec's own Digitize/Route definitions (a mismatch is a machinery failure). digitize2tree is decided on the finished node table (DigitizeFnTrace); the tree_add_node sequence is the mechanism layer. Two layers (DESIGN 13): a deviation of the recorded mechanism alone is reported as MODEL-DRIFT (exit 0); a VIOLATION needs a clause on results to fail."),
     "C19": ("DESIGN 4/C19",
             "TLA+ spec CatEncode (fit/schema layout + the cell loop with the variable p): TLC model checking (incl. a "
             "negative run reproducing the stale-p defect) + spec->code replay on real DataFrames + trace validation",
@@ -57,17 +57,18 @@ CLAIMED = {
             "specification's guards, and fit/predict-level observations (sizes, n_iter_, finite centres, nearest centre) "
             "against QuotaFitTrace.",
             "Hook H1 (add-only, guarded by MLINSIGHTS_VERIF) reports decisions after the state change; the open finding "
-            "'swap-exhaustion' of strategy 'gain' is listed in known_findings.json and re-run on its recorded inputs."),
+            "'swap-exhaustion' of strategy 'gain' is listed in known_findings.json and re-run on its recorded inputs. When an association trace or a replay deviates, 400-1200 further fits and balanced predictions are run before anything is concluded. Two layers (DESIGN 13): a deviation of the recorded mechanism alone is reported as MODEL-DRIFT (exit 0); a VIOLATION needs a clause on results to fail."),
     "C17": ("DESIGN 4/C17",
             "TLA+ spec Bootstrap (index requests, training triples, aggregation over recording models): TLC model "
             "checking incl. a negative run reproducing the excluded last row + trace validation of every "
             "randint call / base-estimator fit / prediction",
             "TLC checks EligibleAll, SizeExact, alignment and min<=mean<=max for every draw in the bound; seeded fits are "
-            "run with numpy.random.randint wrapped and a recording base regressor, and every draw, every fit (rows, "
-            "targets and weights kept together, consumed against a pending draw) and every predict_all / predict / "
-            "predict_sorted row is an event validated by BootstrapTrace.",
+            "run with numpy.random.randint wrapped and a recording base regressor; every fit (size, rows with their own "
+            "targets and weights) and every predict_all / predict / predict_sorted row is an event validated by "
+            "BootstrapTrace; a recorded randint call is evidence only: a fit trained on exactly its rows identifies it as the "
+            "bootstrap draw, which must then be over all n rows; eligibility without observable draws is a statistical check.",
             "alpha dyadic; rounding is the code's int(n*alpha+0.5); thread schedules (n_jobs>1) are observed as they "
-            "happen, fits are matched to draws by content."),
+            "happen; how indices are drawn is not constrained (DESIGN 13)."),
     "C13": ("DESIGN 4/C13",
             "TLA+ spec TargetInv (name table with inverses; bijections label set -> 0..m-1; equivariant inner learner): "
             "TLC model checking incl. two negative runs + trace validation on the permutation the code really drew",
@@ -90,12 +91,11 @@ CLAIMED = {
             "TLA+ spec Metrics (min/mean/max accumulator machine; tr/inv_tr dispatch table): TLC model checking + "
             "event-level trace validation of every accumulation step and of all 36 dispatch combinations",
             "TLC checks range and min<=mean<=max for all accumulation histories in the bound; for seeded tables the "
-            "train/test split of every draw is captured (module global wrapped) and a spy model records predictions, so "
-            "each (draw, i, j) contribution is an event the specification accumulates itself and compares with the "
-            "returned matrices (square, range, extremes, labels, frame = array, input untouched, unit diagonal); "
+            "train/test split of every draw and the generator state before it are captured (module global wrapped); the "
+            "value of each (draw, i, j) is read off a one-draw run of the code from that state, so each contribution is "
+            "an event the specification accumulates itself and compares with the returned matrices (square, range, extremes, labels, frame = array, input untouched, unit diagonal); "
             "comparable_metric is replayed on every (tr, inv_tr) pair with a recording metric.",
-            "per-draw values are recomputed by the harness on a 1e-6 grid; the numeric value of a correlation is not "
-            "modelled."),
+            "per-draw values are the code's own, on a 1e-6 grid; the formula of a draw is not demanded (DESIGN 13)."),
     "C06": ("DESIGN 4/C06",
             "TLA+ spec KMediansL1 (Lloyd loop: Manhattan E step, median M step, empty-cluster relocation, best-of tracking, "
             "the code's convergence test, final E step): TLC model checking incl. a negative run + step-by-step trace "
@@ -106,7 +106,7 @@ CLAIMED = {
             "next step (relocation bound to the logged centre); random larger data cover string init modes, float32, "
             "predict/transform and the norm='L2' equality with scikit-learn's KMeans.",
             "integer data (exact after doubling); norm='L2' is an equality the trace spec evaluates, not a model of "
-            "Euclidean k-means."),
+            "Euclidean k-means. The clauses of the property are decided on a companion trace carrying only what fit returned. Two layers (DESIGN 13): a deviation of the recorded mechanism alone is reported as MODEL-DRIFT (exit 0); a VIOLATION needs a clause on results to fail."),
     "C10": ("DESIGN 4/C10",
             "TLA+ spec LogregTree (explicit-stack machine of the recursive node fit with the code's index allocation; "
             "three traversals over tri-state rows): TLC model checking incl. a negative run + event-level trace validation "
@@ -116,7 +116,7 @@ CLAIMED = {
             "step of the stack machine (guards, early returns, index allocation), and for probe rows the specification "
             "itself walks the fitted tree from per-node comparisons and checks decision_path, predict_proba, predict.",
             "exact ties with the threshold are exercised through a lookup stub classifier; for real learners near-ties "
-            "(1e-9) are skipped; min_samples_leaf is modelled as the code applies it (node size)."),
+            "(1e-9) are skipped; min_samples_leaf is modelled as the code applies it (node size). The clauses of the property are decided on a companion trace carrying the finished tree as walked by the harness. Two layers (DESIGN 13): a deviation of the recorded mechanism alone is reported as MODEL-DRIFT (exit 0); a VIOLATION needs a clause on results to fail."),
     "C09": ("DESIGN 4/C09",
             "TLA+ spec Criterion (cursor protocol with stored side weights; exact rational mean / MSE / linear-fit RSS / "
             "proxy / improvement): TLC model checking incl. a negative run + trace validation of the compiled criteria "
@@ -138,7 +138,7 @@ CLAIMED = {
             "the order of estimators_, every prediction against the model that must answer (unseen cells -> fallback), and "
             "the same fit re-run under permuted task orders.",
             "cells are read from the fitted binner; task orders are forced at task granularity (joblib's Parallel in the "
-            "module namespace is replaced), not OS thread interleavings."),
+            "module namespace is replaced), not OS thread interleavings. Recorded fits are attributed to buckets by their rows (the estimator's own attributes are a hint only). Two layers (DESIGN 13): a deviation of the recorded mechanism alone is reported as MODEL-DRIFT (exit 0); a VIOLATION needs a clause on results to fail."),
     "C01": ("DESIGN 4/C01",
             "TLA+ spec Lifecycle (parameter store, set_params / clone as actions; negative run for a store that is replaced) "
             "+ LifecycleTrace: histories of new / set_params / clone / cross-feed / fit / predict on every exported class "
